@@ -78,5 +78,9 @@ Definition need_resample (n0 : nat) (idx0 thr stp one : Z) (k : nat) : nat :=
 Definition need_resample_tv (c : nat -> bool) (n0 : nat) (idx0 thr stp one : Z) (k : nat) : nat :=
   (if c 0 then need_resample n0 idx0 thr stp one k else 0) + (if c 1 then k - 1 else 0).
 
+(* attack with a sustain stream: one item of look-ahead at the first demand (the decay target), then
+   one item per output after the n samples of the attack and decay lines *)
+Definition need_attack (n k : nat) : nat := match k with 0 => 0 | _ => 1 + (k - n) end.
+
 (* composition of needs along a chain: the first stage reads the sources *)
 Definition need_comp (n1 n2 : nat -> nat) (k : nat) : nat := n1 (n2 k).
